@@ -22,12 +22,19 @@ def valid_char(c):
 class SymLabel:
     """a label whose variant and payload are solver variables"""
 
-    def __init__(s, name):
+    def __init__(s, name, const=None):
+        """const: {'g': code point} | {'a': index} | {'s': [8 code points]} -- a label that is a constant (tasks that fix
+        the labels so that code which hashes a label runs concretely)"""
         s.name = name
         s.kind = z3.ZeroExt(6, z3.BitVec(name + '.k', 2))
         s.c = z3.BitVec(name + '.c', 32)
         s.n = z3.BitVec(name + '.n', 64)
         s.chars = [z3.BitVec('%s.s%d' % (name, i), 32) for i in range(8)]
+        if const is not None:
+            s.kind = z3.BitVecVal(GREEK if 'g' in const else (ALPHA if 'a' in const else STR), 8)
+            s.c = z3.BitVecVal(const.get('g', 0x78), 32)
+            s.n = z3.BitVecVal(const.get('a', 0), 64)
+            s.chars = [z3.BitVecVal(x, 32) for x in const.get('s', [0x20] * 8)]
 
     def wf(s):
         return z3.And(z3.ULE(s.kind, 2), valid_char(s.c), *[valid_char(c) for c in s.chars])
@@ -235,10 +242,11 @@ class World:
         """write the image of SymLabel `lab` at dst (fresh scratch if None); returns (state, addr)"""
         sc = s.scratch(st, 3 * s.sz_label + 32, 'lbl.' + lab.name)
         arr = sc + 3 * s.sz_label
+        cv = lambda x: x.as_long() if z3.is_bv_value(x) else x
         for i, c in enumerate(lab.chars):
-            s.wr(st, arr + 4 * i, c, 4)
-        st = s.call1(st, '@label_greek', sc, lab.c).st
-        st = s.call1(st, '@label_alpha', sc + s.sz_label, lab.n).st
+            s.wr(st, arr + 4 * i, cv(c), 4)
+        st = s.call1(st, '@label_greek', sc, cv(lab.c)).st
+        st = s.call1(st, '@label_alpha', sc + s.sz_label, cv(lab.n)).st
         st = s.call1(st, '@label_str', sc + 2 * s.sz_label, arr).st
         imgs = [st.mem.read_cells(sc + k * s.sz_label, s.sz_label) for k in range(3)]
         img = merge_cells(lab.kind == GREEK, imgs[0], merge_cells(lab.kind == ALPHA, imgs[1], imgs[2], st), st)
@@ -278,11 +286,26 @@ class World:
         return st, dst
 
     # ------------------------------------------------------------ symbolic pre-state
-    def symbolic(s, dirty_absent=True, fixed=None):
+    def second(s, st, name='Sodg.h'):
+        """another empty instance of the same configuration in state st: (state, World view of it)"""
+        g2 = s.scratch(st, s.gsize, name)
+        st = s.call1(st, s.pfx + 'empty', g2, s.cap).st
+        pr = s.scratch(st, 24 * 8, 'probe')
+        stp = s.call1(st, s.pfx + 'probe', g2, pr).st
+        P = [s.rd(stp, pr + 8 * i, 8) for i in range(24)]
+        o = s.view(P)
+        o.g = g2
+        o.a_vertices = st.mem.lookup(o.v0).base
+        o.a_stores = st.mem.lookup(o.s0).base
+        o.a_branches = st.mem.lookup(o.b0).base
+        return st, o
+
+    def symbolic(s, dirty_absent=True, fixed=None, st=None, prefix=''):
         """fork of the concrete empty graph in which every field is a solver variable.
-        Returns (state, Sym).  Nothing is assumed yet: see Sym.inv()."""
-        st = s.concrete0.fork()
-        y = Sym(s, fixed)
+        Returns (state, Sym).  Nothing is assumed yet: see Sym.inv().  With st given, the instance this
+        World (view) describes inside that state is overwritten instead."""
+        st = s.concrete0.fork() if st is None else st
+        y = Sym(s, fixed, prefix)
         for c in y.wf():
             st.assume(c)
         for i in range(s.cap):
@@ -309,7 +332,7 @@ class World:
             a2, _ = st.mem.find(a.base, a.size, True)
             for off in range(a2.size):
                 if a2.cells[off] is None:
-                    a2.cells[off] = (z3.BitVec('pad!a%d_%d' % (base >> 16, off), 8), 0)
+                    a2.cells[off] = (z3.BitVec('%spad!a%d_%d' % (prefix, base >> 16, off), 8), 0)
         st.steps = 0
         return st, y
 
@@ -317,24 +340,25 @@ class World:
 class Sym:
     """the solver variables of a symbolic graph state, and Inv over them"""
 
-    def __init__(s, w, fixed=None):
+    def __init__(s, w, fixed=None, prefix=''):
         """fixed: {variable name: value} -- those fields are constants instead of variables (used where the
         structure of a state is case-split by the runner, e.g. the group structure for save/load)"""
         s.w = w
         s.fixed = fixed = dict(fixed or {})
         cap, N = w.cap, w.N
-        B = z3.BitVec
+        s.prefix = prefix
+        B = lambda name, bits: z3.BitVec(prefix + name, bits)
 
         def NB(name, bits, width=64):
             # a variable with a small domain, widened: the range constraint is structural
             if name in fixed:
                 return z3.BitVecVal(fixed[name], width)
-            return z3.ZeroExt(width - bits, z3.BitVec(name, bits))
+            return z3.ZeroExt(width - bits, z3.BitVec(prefix + name, bits))
         s.tag = [NB('tag%d' % i, 4) for i in range(cap)]            # I1: tag < 16
         s.pers = [NB('pers%d' % i, 2, 8) for i in range(cap)]
-        s.data = [SymHex('d%d' % i, w.heap_lens) for i in range(cap)]
+        s.data = [SymHex(prefix + 'd%d' % i, w.heap_lens) for i in range(cap)]
         s.elen = [NB('ne%d' % i, 5) for i in range(cap)]
-        s.ekey = [[SymLabel('e%d_%d' % (i, j)) for j in range(N)] for i in range(cap)]
+        s.ekey = [[SymLabel(prefix + 'e%d_%d' % (i, j), fixed.get('lab%d_%d' % (i, j))) for j in range(N)] for i in range(cap)]
         s.etgt = [[(z3.BitVecVal(fixed['t%d_%d' % (i, j)], 64) if 't%d_%d' % (i, j) in fixed else B('t%d_%d' % (i, j), 64)) for j in range(N)] for i in range(cap)]
         s.cnt = [U(1) if b < 2 else NB('cnt%d' % b, 5) for b in range(NSLOT)]       # cnt < 32; I6 says <= 16
         ib = cap.bit_length() + 1      # stale members are arbitrary but small: enough to be out of range
